@@ -5159,13 +5159,17 @@ bool SoPlexBase<R>::getBasisInverseTimesVecReal(R* rhs, R* sol, bool unscale)
             assert(index < numRows());
             assert(!_solver.isRowBasic(index));
 
-            x[i] = v[index] - (rowVectorRealInternal(index) * VectorBase<R>(numCols(), y.get_ptr()));
-
             if(adaptScaling)
             {
-               scaleExp = -_scaler->getRowScaleExp(index);
-               x[i] = spxLdexp(x[i], scaleExp);
+               // the row activity is computed in the scaled space, so the right-hand side entry has to be scaled as well
+               // before the difference is unscaled
+               scaleExp = _scaler->getRowScaleExp(index);
+               x[i] = spxLdexp(v[index], scaleExp)
+                      - (rowVectorRealInternal(index) * VectorBase<R>(numCols(), y.get_ptr()));
+               x[i] = spxLdexp(x[i], -scaleExp);
             }
+            else
+               x[i] = v[index] - (rowVectorRealInternal(index) * VectorBase<R>(numCols(), y.get_ptr()));
          }
          else
          {
